@@ -1,4 +1,5 @@
 import Cdecao.Model.Cdedb
+import Cdecao.Proofs.ImportConsistent
 /-! # C05 — applying the generated import file yields a consistent course track (writer side)
 
 `CD.writeRegs` / `CD.writeCourses` model the registrations / courses objects of io::cdedb::write.
@@ -44,4 +45,132 @@ theorem C05_no_cancelled_assignment (courses : List Course) (a : List (Option Na
   have := hiff.2 (Or.inl this)
   contradiction
 
+/-! ## the import file against the export it was computed from
+
+Proofs in `Cdecao/Proofs/ImportConsistent.lean`. Vocabulary (all on the JSON value of the export):
+* `Selected data o amb partId trackId cdata rdata` — `findTrack` selected part `partId` / track
+  `trackId` among `event.parts`; `cdata` / `rdata` are the `courses` / `registrations` objects; and
+  `amb.trackId = trackId` is the only track id the writer names (`tracks: {amb.trackId: {course_id}}`);
+* `RegNamed o partId trackId cdata rkv rid` — `rkv` has key `rid`, `parts[partId].status` is
+  participant, and with `--ignore-assigned` its `tracks[trackId].course_id` is absent/null or names
+  a course that is not kept (not offered in the track, or cancelled and ignored);
+* `CourseNamed o trackId ckv cid` — `ckv` has key `cid`, `segments[trackId]` is a boolean (offered)
+  and with `--ignore-cancelled` it is `true`;
+* `ChoseOrInstructs trackId reg cid` — `cid` occurs in `tracks[trackId].choices` or equals
+  `tracks[trackId].course_instructor`;
+* `courseMinSize` / `courseMaxSize` — `min_size` / `max_size` with the defaults 0 / 25;
+* `ignoredCount o partId trackId rdata cid false` — with `--ignore-assigned`, the number of
+  registrations that are participants of the part, have `course_id = cid` in the track and do not
+  instruct `cid` (the ignored pre-assigned attendees); 0 without the option;
+* `NodupKeys data` — the keys of the `courses` object are distinct as parsed numbers. This is a
+  hypothesis: it is not derivable in the model (`J.obj` is an arbitrary association list and `"7"`,
+  `"07"` parse alike). It is used for (e) and for expressing the ignored counts of (d) by the
+  course's key; `CD.Link.regs_entry` / `CD.Link.courses_entry` are (a)–(d) without it. -/
+
+open N2.G in
+/-- **C05, assembled.** For the problem read from an export and any assignment satisfying the hard
+    constraints, the registrations / courses objects of the import file are consistent with that
+    export:
+    * shape: the entries are exactly `(registration id of participant p, id of its course)` — one
+      `course_id` per named registration, for the single track `amb.trackId`, the selected one;
+    * (a) every entry names a registration of the export that is a participant of the selected part
+      (and is not an ignored one) and a course of the export offered in the selected track (not
+      cancelled, with `--ignore-cancelled`);
+    * (b) that course is written as taking place;
+    * (c) the registration chose the course or instructs it, by the export;
+    * (d) per course entry: it names a course of the export offered in the track; it is written as
+      taking place iff it takes place in the sense of `HardOK`; then the export's `min_size` is met
+      counting the new attendees and the ignored pre-assigned ones; and there are no new attendees
+      or the export's `max_size` is respected counting both;
+    * (e) nobody is newly assigned to a course written as cancelled. -/
+theorem C05_consistent (data : JS.J) (o : Opts) (parts : List Part) (courses : List Course)
+    (amb : Ambience) (al : List (Option Nat))
+    (hread : CD.read data o = .ok (parts, courses, amb))
+    (hlen : al.length = parts.length)
+    (hok : HardOK (toInst parts courses) (fun p => al.getD p none))
+    (hkeys : NodupKeys data) :
+    ∃ partId trackId cdata rdata, Selected data o amb partId trackId cdata rdata ∧
+      -- shape of the registration entries
+      (∀ rid cid, (rid, cid) ∈ writeRegs parts courses al ↔
+        ∃ (p : Nat) (pp : Part) (c : Nat), parts[p]? = some pp ∧ al[p]? = some (some c) ∧
+          rid = pp.dbid ∧ cid = (courses.getD c default).dbid) ∧
+      -- (a), (b), (c)
+      (∀ rid cid, (rid, cid) ∈ writeRegs parts courses al →
+        ∃ rkv ∈ rdata, ∃ ckv ∈ cdata,
+          RegNamed o partId trackId cdata rkv rid ∧ CourseNamed o trackId ckv cid ∧
+          (cid, true) ∈ writeCourses courses al ∧ ChoseOrInstructs trackId rkv.2 cid) ∧
+      -- (d)
+      (∀ c cid b, (writeCourses courses al)[c]? = some (cid, b) →
+        ∃ ckv ∈ cdata, CourseNamed o trackId ckv cid ∧
+          (b = true ↔ takesPlace (toInst parts courses) (fun p => al.getD p none) c) ∧
+          (b = true → courseMinSize ckv.2 ≤
+            attendees (toInst parts courses) (fun p => al.getD p none) c +
+              ignoredCount o partId trackId rdata cid false) ∧
+          (attendees (toInst parts courses) (fun p => al.getD p none) c = 0 ∨
+            attendees (toInst parts courses) (fun p => al.getD p none) c +
+              ignoredCount o partId trackId rdata cid false ≤ courseMaxSize ckv.2)) ∧
+      -- (e)
+      (∀ cid, (cid, false) ∈ writeCourses courses al →
+        ∀ rid, (rid, cid) ∉ writeRegs parts courses al) := by
+  obtain ⟨partId, trackId, cdata, rdata, co, L⟩ := read_link data o parts courses amb hread
+  have hn : (courseIds cdata).Nodup := hkeys cdata L.hcdata
+  refine ⟨partId, trackId, cdata, rdata, L.selected, mem_writeRegs parts courses al,
+    fun rid cid h => L.regs_entry al hok rid cid h, ?_,
+    fun cid h rid => L.no_cancelled_assignment hn al hok cid h rid⟩
+  intro c cid b h
+  obtain ⟨ckv, hm, hnamed, h1, h2, h3, _⟩ := L.courses_entry al hlen hok c cid b h
+  have hcc : ∃ cc, courses[c]? = some cc ∧ cc.dbid = cid := by
+    rw [writeCourses_getElem?] at h
+    cases hcc : courses[c]? with
+    | none => rw [hcc] at h; cases h
+    | some cc =>
+      rw [hcc] at h
+      simp only [Option.map_some, Option.some.injEq, Prod.mk.injEq] at h
+      exact ⟨cc, rfl, h.1⟩
+  obtain ⟨cc, hcc, rfl⟩ := hcc
+  rw [L.invCount_eq_ignoredCount hn c cc hcc false] at h2 h3
+  exact ⟨ckv, hm, hnamed, h1, h2, h3⟩
+
+open N2.G in
+/-- **C05 without key distinctness.** Clauses (a)–(d) hold for every export; the ignored
+    pre-assigned attendees of (d) are then counted through the reader's course table `co`
+    (`invCount … c false` = the number of registrations `readRegs` ignored with `assigned = some c`
+    that do not instruct `c`, see `readRegs_invisible`). -/
+theorem C05_consistent_anyKeys (data : JS.J) (o : Opts) (parts : List Part) (courses : List Course)
+    (amb : Ambience) (al : List (Option Nat))
+    (hread : CD.read data o = .ok (parts, courses, amb))
+    (hlen : al.length = parts.length)
+    (hok : HardOK (toInst parts courses) (fun p => al.getD p none)) :
+    ∃ partId trackId cdata rdata co, Selected data o amb partId trackId cdata rdata ∧
+      readCourses cdata trackId o = .ok co ∧
+      (∀ rid cid, (rid, cid) ∈ writeRegs parts courses al →
+        ∃ rkv ∈ rdata, ∃ ckv ∈ cdata,
+          RegNamed o partId trackId cdata rkv rid ∧ CourseNamed o trackId ckv cid ∧
+          (cid, true) ∈ writeCourses courses al ∧ ChoseOrInstructs trackId rkv.2 cid) ∧
+      (∀ c cid b, (writeCourses courses al)[c]? = some (cid, b) →
+        ∃ ckv ∈ cdata, CourseNamed o trackId ckv cid ∧
+          (b = true ↔ takesPlace (toInst parts courses) (fun p => al.getD p none) c) ∧
+          (b = true → courseMinSize ckv.2 ≤
+            attendees (toInst parts courses) (fun p => al.getD p none) c +
+              invCount o partId trackId co rdata c false) ∧
+          (attendees (toInst parts courses) (fun p => al.getD p none) c = 0 ∨
+            attendees (toInst parts courses) (fun p => al.getD p none) c +
+              invCount o partId trackId co rdata c false ≤ courseMaxSize ckv.2)) := by
+  obtain ⟨partId, trackId, cdata, rdata, co, L⟩ := read_link data o parts courses amb hread
+  refine ⟨partId, trackId, cdata, rdata, co, L.selected, L.hco,
+    fun rid cid h => L.regs_entry al hok rid cid h, ?_⟩
+  intro c cid b h
+  obtain ⟨ckv, hm, hnamed, h1, h2, h3, _⟩ := L.courses_entry al hlen hok c cid b h
+  exact ⟨ckv, hm, hnamed, h1, h2, h3⟩
+
+/-- a concrete instance of the hypotheses (`CD.Ex`: track 3 with `--ignore-cancelled` and
+    `--ignore-assigned`; course 7 takes place, 8 is cancelled, 9 belongs to another track;
+    registration 100 chooses 8 then 7, 101 is pre-assigned to 7 and ignored, 102 is no participant,
+    103 instructs 7; both participants are assigned to course 7) -/
+example := C05_consistent Ex.doc Ex.opts Ex.parts Ex.courses Ex.amb Ex.al Ex.read_eq rfl Ex.hardOK
+  Ex.nodupKeys
+
 end Props
+
+#print axioms Props.C05_consistent
+#print axioms Props.C05_consistent_anyKeys
